@@ -13,14 +13,15 @@ func mkHdrs(c int) []sipsp.Hdr {
 	if c < 0 {
 		return nil
 	}
-	return make([]sipsp.Hdr, c)
+	// a window over a larger array (callers often hand in pool[:k]): length c, spare capacity behind it
+	return make([]sipsp.Hdr, c, c+3)
 }
 
 func mkVals(c int) []sipsp.PFromBody {
 	if c < 0 {
 		return nil
 	}
-	return make([]sipsp.PFromBody, c)
+	return make([]sipsp.PFromBody, c, c+3)
 }
 
 func min(a, b int) int {
@@ -278,7 +279,7 @@ var uriParamsDrv = &Driver[URIParamsObj]{
 	New: func(cfg *Cfg) *URIParamsObj {
 		o := new(URIParamsObj)
 		if cfg.ValCap >= 0 {
-			o.L.Init(make([]sipsp.URIParam, cfg.ValCap))
+			o.L.Init(make([]sipsp.URIParam, cfg.ValCap, cfg.ValCap+3))
 		}
 		return o
 	},
@@ -303,7 +304,7 @@ var uriHdrsDrv = &Driver[URIHdrsObj]{
 	New: func(cfg *Cfg) *URIHdrsObj {
 		o := new(URIHdrsObj)
 		if cfg.ValCap >= 0 {
-			o.L.Init(make([]sipsp.URIHdr, cfg.ValCap))
+			o.L.Init(make([]sipsp.URIHdr, cfg.ValCap, cfg.ValCap+3))
 		}
 		return o
 	},
